@@ -5,7 +5,8 @@ length, side-band split, capability / ref / want lines), specs/StreamRd.tla (Rec
 read/recv + read_pkt_line/unread/eof, one step per _recv call, every partition of the stream),
 specs/StreamRdMux.tla (PktLineParser under every fragmentation; BufferedPktLineWriter -> side-band ->
 demux -> PktLineParser), specs/StreamRdPack.tla (PackStreamReader read/recv/push-back and trailer
-tracking), specs/StreamRdTrace.tla + StreamRdPackTrace.tla (TLC judges executions recorded from the
+tracking), specs/StreamRdFilter.tla (the filter-process protocol of filters.py as a consumer that must keep the
+flush-pkt and the empty data packet apart), specs/StreamRdTrace.tla + StreamRdPackTrace.tla (TLC judges executions recorded from the
 real code).
 
 Binding:
@@ -31,6 +32,7 @@ from io import BytesIO
 from .. import tlc
 from ..c19_lib import (P, RecHash, Wire, b, buffered, git_env, leaves, okind, outcome, read_all_pkts, rprotocol,
                        split_frames, write_cfg)
+from ..c19_filter import Env as FilterEnv, check_filter_leaf
 from ..core import MachineryError
 
 PAT = bytes(range(251))
@@ -734,7 +736,7 @@ def check_pack_leaf(rep, c):
 
 CHECKS = {"prefix": check_prefix, "enc": check_enc, "sideband": check_sideband, "sbmix": check_sbmix, "frames": check_frames, "caps": check_caps,
           "want": check_want, "rp": check_rp_leaf, "parser": check_parser_leaf, "pipeline": check_pipeline_leaf,
-          "pack": check_pack_leaf}
+          "pack": check_pack_leaf, "filter": check_filter_leaf}
 
 
 # --------------------------------------------------------------------------- C git
@@ -865,13 +867,16 @@ def part_machines(ctx, rep, jobs):
         if not ls:
             raise MachineryError(f"{name}: no behaviours emitted\n{r.output[-1500:]}")
         ncmp = 0
+        env = FilterEnv(ctx) if kind == "filter" else None
         for i, leaf in enumerate(ls):
             leaf.pop("leaf", None)
             leaf.update(extra)
-            ncmp += CHECKS[kind](rep, leaf)
+            ncmp += CHECKS[kind](rep, leaf, env) if env else CHECKS[kind](rep, leaf)
             if i == len(ls) // 2:
                 ctx.sample({"kind": kind, "behaviour": leaf}, limit=20)
             ctx.nontrivial(hash((kind, json.dumps(leaf, sort_keys=True))))
+        if env:
+            env.stop()
         ctx.count(ncmp)
         ctx.validated(len(ls))
         ctx.cov.setdefault("behaviours", {})[name] = len(ls)
@@ -934,8 +939,14 @@ def submit_all(ctx, jobs):
     jobs.submit(jobs.negatives[-1][0], "StreamRd.tla", "StreamRd_neg.cfg", workers=1)
     jobs.negatives.append(("StreamRdPack_neg (new data hashed before the old trailer)", ["TrailerExact"]))
     jobs.submit(jobs.negatives[-1][0], "StreamRdPack.tla", "StreamRdPack_neg.cfg", workers=1)
+    jobs.negatives.append(("StreamRdFilter_neg (an empty packet ends a list)", ["ConsumerExact", "NeverStarved"]))
+    jobs.submit(jobs.negatives[-1][0], "StreamRdFilter.tla", "StreamRdFilter_neg.cfg", workers=1)
     # behaviour trees
     rbuf = 3
+    for scen in ("response", "handshake"):
+        name = f"StreamRdFilter {scen} (filter-process consumer: flush-pkt vs empty packet)"
+        jobs.gens.append((name, "filter", {}))
+        jobs.submit(name, "StreamRdFilter.tla", f"StreamRdFilter_{scen}.cfg", workers=1)
 
     def gen(name, kind, spec, constants, invs, extra=None, workers=2):
         jobs.gens.append((name, kind, extra or {}))
